@@ -92,6 +92,21 @@ def Req.centre (q : Req) : Int × Int × Int :=
 
 def inBox (n : Nat) (c : Int) : Bool := decide (0 ≤ c) && decide (c < (n : Int))
 
+/-- numpy index `a[c]` on an axis of length `n`: valid for `-n ≤ c < n` (`IndexError` otherwise) … -/
+def idxOk (n : Nat) (c : Int) : Bool := decide (-(n : Int) ≤ c) && decide (c < (n : Int))
+/-- … and a negative index counts from the end -/
+def wrapIdx (n : Nat) (c : Int) : Int := if c < 0 then c + (n : Int) else c
+
+/-- `spherical_mask` on a box: the distance test is made with the centre as given, the forced voxel
+`mask[center[0], center[1], center[2]] = 1` is addressed by numpy (negative indices wrap) -/
+def sphereVox (nx ny nz : Nat) (cx cy cz : Int) (r : Rat) (i j k : Int) : Bool :=
+  (i == wrapIdx nx cx && j == wrapIdx ny cy && k == wrapIdx nz cz) || sphereIn cx cy cz r i j k
+
+/-- `cylindrical_mask` on a box, forced disc voxel `mask_xy[center[0], center[1]] = 1` addressed by numpy -/
+def cylVox (nx ny nz : Nat) (cx cy cz : Int) (r : Rat) (h : Int) (i j k : Int) : Bool :=
+  ((i == wrapIdx nx cx && j == wrapIdx ny cy) || discIn cx cy r i j)
+    && decide (max (cz - h) 0 ≤ k) && decide (k < min (cz + h + 1) (nz : Int))
+
 /-- radius actually drawn by `spherical_mask` -/
 def Req.sphereRadius (q : Req) : Rat :=
   preprocess (q.radius.getD (((min (min q.nx q.ny) q.nz : Nat) / 2 : Nat) : Rat)) q.gauss q.outwards
@@ -115,28 +130,29 @@ def ellRadii (r : Rat × Rat × Rat) (g : Rat) (outwards : Bool) : Int × Int ×
    trunc (preprocess (trunc r.2.2 : Rat) g outwards))
 
 /-- voxel value before the blur; shells of spheres are float differences (−1 is possible for a
-negative thickness), everything else is 0/1.  `none`: the real code raises (`IndexError`, centre
-voxel outside the box) -/
+negative thickness), everything else is 0/1.  `none`: the real code raises `IndexError` when it forces
+the centre voxel (exactly when an index of the centre is `≥ n` or `< -n`; indices in `-n … -1` wrap and
+are modelled, although the property quantifies over centres in the box only) -/
 def voxel (q : Req) : Option (Int → Int → Int → Int) :=
   let (cx, cy, cz) := q.centre
   match q.kind with
   | .sphere =>
-    if inBox q.nx cx && inBox q.ny cy && inBox q.nz cz then
-      some fun i j k => b2i (sphereIn cx cy cz q.sphereRadius i j k)
+    if idxOk q.nx cx && idxOk q.ny cy && idxOk q.nz cz then
+      some fun i j k => b2i (sphereVox q.nx q.ny q.nz cx cy cz q.sphereRadius i j k)
     else none
   | .cylinder =>
-    if inBox q.nx cx && inBox q.ny cy then
-      some fun i j k => b2i (cylIn q.nz cx cy cz q.cylRadius q.cylHalf i j k)
+    if idxOk q.nx cx && idxOk q.ny cy then
+      some fun i j k => b2i (cylVox q.nx q.ny q.nz cx cy cz q.cylRadius q.cylHalf i j k)
     else none
   | .ellipsoid =>
     let (a, b, c) := q.radiiInt
     let (rx, ry, rz) := ellRadii ((a : Rat), (b : Rat), (c : Rat)) q.gauss q.outwards
     some fun i j k => b2i (ellipsoidIn q.nx q.ny q.nz cx cy cz rx ry rz i j k)
   | .sshell =>
-    if inBox q.nx cx && inBox q.ny cy && inBox q.nz cz then
+    if idxOk q.nx cx && idxOk q.ny cy && idxOk q.nz cz then
       let r : Rat := q.radius.getD (((min (min q.nx q.ny) q.nz : Nat) / 2 : Nat) : Rat)
       let t := q.thick / 2
-      some fun i j k => b2i (sphereIn cx cy cz (r + t) i j k) - b2i (sphereIn cx cy cz (r - t) i j k)
+      some fun i j k => b2i (sphereVox q.nx q.ny q.nz cx cy cz (r + t) i j k) - b2i (sphereVox q.nx q.ny q.nz cx cy cz (r - t) i j k)
     else none
   | .eshell =>
     let (a, b, c) := q.radiiInt
@@ -202,7 +218,13 @@ def accumulate (op : α → α → α) (init : List α) (ms : List (List α)) : 
 
 def sameShape (ms : List (List α)) : Bool := ms.all fun m => m.length == (ms.headD []).length
 
-/-- `cryomask.union(mask_list)`; `none`: empty list (`mask_list[0]` raises) or shapes differ -/
+/-- the lists the algebra model speaks about: non-empty, all masks of one size -/
+def inDomain (ms : List (List α)) : Bool := !ms.isEmpty && sameShape ms
+
+/-- `cryomask.union(mask_list)`.  `none` for an empty list: the real code raises (`mask_list[0]`, `IndexError`).
+`none` for masks of different sizes means only "outside the model": numpy broadcasts a smaller mask into the
+accumulator when it can and raises otherwise; flat lists do not describe that and nothing is claimed
+(`inDomain` tells the two apart for the driver). -/
 def union (ms : List (List α)) : Option (List α) :=
   if ms.isEmpty || !sameShape ms then none else
   some ((accumulate (· + ·) (List.replicate (ms.headD []).length 0) ms).map clip01)
@@ -222,5 +244,104 @@ def difference (ms : List (List α)) : Option (List α) :=
   | _, _ => none
 
 end Algebra
+
+/-! ### the other reading of "difference": n-ary XOR (parity) -/
+
+/-- voxel-wise XOR of any number of Boolean masks: true iff an odd number of them is set -/
+def xorAll (bs : List Bool) : Bool := bs.foldl xor false
+
+/-- the statement's voxel-wise Boolean combination for each of the four functions ("OR, AND, AND-NOT and XOR");
+`difference` is read as XOR of all the masks (parity), which for two masks is the usual XOR -/
+def specVox (fn : String) (bs : List Bool) : Option Bool :=
+  if fn = "union" then some (bs.any id)
+  else if fn = "intersection" then some (bs.all id)
+  else if fn = "subtraction" then (match bs with | [] => none | b0 :: rest => some (b0 && !rest.any id))
+  else if fn = "difference" then some (xorAll bs)
+  else none
+
+/-! ### soft edges: `add_gaussian` = `skimage.filters.gaussian(mask, sigma)` =
+`scipy.ndimage.gaussian_filter(mask, sigma, mode="nearest", truncate=4.0)`: a separable kernel of radius
+`int(4σ + 0.5)` whose 1-D weights are `exp(-t²/2σ²)` divided by their sum; voxels beyond a face are
+replaced by the nearest voxel of the box. -/
+
+/-- the property's bound on the core of an outwards-blurred mask -/
+def coreTol : Rat := mkRat 1 1000
+
+/-- kernel radius `int(truncate * sigma + 0.5)`, `truncate = 4` -/
+def kernelRadius (g : Rat) : Nat := ((4 * g + mkRat 1 2).floor).toNat
+
+/-- `mode="nearest"`: index `x` read on an axis of length `n` -/
+def clampIdx (n : Nat) (x : Int) : Int := max 0 (min x ((n : Int) - 1))
+
+/-- the offsets `[-R, R]³` of the kernel -/
+def cube (R : Nat) : List (Int × Int × Int) :=
+  let ax : List Int := (List.range (2 * R + 1)).map fun (t : Nat) => (t : Int) - (R : Int)
+  ax.flatMap fun a => ax.flatMap fun b => ax.map fun c => (a, b, c)
+
+section Blur
+variable {α : Type} [Add α] [Mul α] [Zero α]
+
+/-- weight of a 3-D offset of the separable kernel with 1-D weights `w1` -/
+def w3 (w1 : Int → α) (q : Int × Int × Int) : α := w1 q.1 * w1 q.2.1 * w1 q.2.2
+
+/-- the mask value the filter reads at offset `q` from voxel `(i,j,k)` -/
+def seen (nx ny nz : Nat) (x : Int → Int → Int → α) (i j k : Int) (q : Int × Int × Int) : α :=
+  x (clampIdx nx (i + q.1)) (clampIdx ny (j + q.2.1)) (clampIdx nz (k + q.2.2))
+
+/-- one voxel of the blurred mask -/
+def blurAt (nx ny nz R : Nat) (w1 : Int → α) (x : Int → Int → Int → α) (i j k : Int) : α :=
+  ((cube R).map fun q => w3 w1 q * seen nx ny nz x i j k q).sum
+
+end Blur
+
+/-! ### `parse_shape_string`: the five patterns `^label(\d+)label(\d+)…$`, tried in the order of the
+source's dictionary.  Strings are lists of characters; `Gen.C13.shapeLabels` is compiled from the
+regular expressions found in the source (the literal pieces between the `(\d+)` groups). -/
+
+/-- value of a run of decimal digits (`int(...)`) -/
+def valDigits (ds : List Char) : Nat := ds.foldl (fun a c => 10 * a + (c.toNat - 48)) 0
+
+def stripPrefix : List Char → List Char → Option (List Char)
+  | [], s => some s
+  | _ :: _, [] => none
+  | p :: ps, c :: cs => if p = c then stripPrefix ps cs else none
+
+/-- `label(\d+)` for every label, then the end of the string -/
+def parseFields : List (List Char) → List Char → Option (List Nat)
+  | [], s => if s.isEmpty then some [] else none
+  | l :: ls, s =>
+    match stripPrefix l s with
+    | none => none
+    | some rest =>
+      if (rest.takeWhile Char.isDigit).isEmpty then none else
+      match parseFields ls (rest.dropWhile Char.isDigit) with
+      | none => none
+      | some ns => some (valDigits (rest.takeWhile Char.isDigit) :: ns)
+
+def kindOfName (s : String) : Option Kind :=
+  if s = "sphere" then some .sphere else if s = "cylinder" then some .cylinder else if s = "s_shell" then some .sshell
+  else if s = "ellipsoid" then some .ellipsoid else if s = "e_shell" then some .eshell else none
+
+/-- first pattern of the table that matches -/
+def parseWith (table : List (String × List (List Char))) (s : List Char) : Option (Kind × List Nat) :=
+  table.findSome? fun e =>
+    match kindOfName e.1, parseFields e.2 s with
+    | some k, some ns => some (k, ns)
+    | _, _ => none
+
+/-- `parse_shape_string`; Python's `$` also matches before one trailing newline -/
+def parseShape (s : List Char) : Option (Kind × List Nat) :=
+  parseWith Gen.C13.shapeLabels (if s.getLast? = some '\n' then s.dropLast else s)
+
+/-- the name a caller writes for a shape: labels interleaved with `str(n)` -/
+def formatFields : List (List Char) → List Nat → List Char
+  | l :: ls, n :: ns => l ++ Nat.toDigits 10 n ++ formatFields ls ns
+  | _, _ => []
+
+def labelsOf (table : List (String × List (List Char))) (k : Kind) : Option (List (List Char)) :=
+  (table.find? fun e => kindOfName e.1 == some k).map (·.2)
+
+def formatShape (k : Kind) (specs : List Nat) : Option (List Char) :=
+  (labelsOf Gen.C13.shapeLabels k).map fun ls => formatFields ls specs
 
 end CryoCat.C13
